@@ -649,3 +649,13 @@ Theorem var_item_binds_new_cell : forall k e st x z rest last,
 Proof. intros. rewrite eval_items_IVar, eval_EInt. reflexivity. Qed.
 
 End Closures.
+
+(* the two halves of "closures keep their cells", together *)
+Theorem closure_captures_cells : forall genv,
+  (forall k e st fd,
+     eval genv (S k) e st (ELambda fd) = (ROk (length (cells st)), with_new_cell st (CFun fd e))) /\
+  (forall k e st f args cs st1 cf st2 fd cenv penv,
+     args_rtl genv k e args st cs st1 -> eval genv k e st1 f = (ROk cf, st2) ->
+     get_cell st2 cf = Some (CFun fd cenv) -> bind_params (fd_params fd) cs = Some penv ->
+     eval genv (S k) e st (ECall f args) = call_body genv k (penv ++ cenv) st2 fd).
+Proof. intros; split; [apply lambda_captures_env | apply closure_call_uses_captured_env]. Qed.
